@@ -291,4 +291,6 @@ MUTATIONS += [
     # ---- behaviour-preserving twins of seeded changes: must stay silent
     dict(id="q-index-range-lossless", edits=[(TNODES, "        self._indices: Tensor\n        self.register_buffer(\"_indices\", torch.tensor(indices))", "        self._indices: Tensor\n        self.register_buffer(\"_indices\", torch.tensor(indices))\n        self._range: tuple[int, int] | None = None\n        if list(indices) == list(range(indices[0], indices[0] + len(indices))):\n            self._range = (indices[0], len(indices))"), (TNODES, "        return torch.index_select(x, self.dim + 1, self._indices)", "        if self._range is not None:\n            return torch.narrow(x, self.dim + 1, self._range[0], self._range[1])\n        return torch.index_select(x, self.dim + 1, self._indices)")], expect={}, quiet=True),
     dict(id="q-evidence-index-helper-cache", file=TINPUT, old="        obs = self.observation()  # (F, D)\n        obs = obs.unsqueeze(dim=1)  # (F, 1, D)", new="        self._last_batch_size = batch_size\n        obs = self.observation()  # (F, D)\n        obs = obs.unsqueeze(dim=1)  # (F, 1, D)", expect={}, quiet=True),
+    dict(id="r12b-tensordot-weights-swapped", file=OLAY, old="    weight1 = weight.subgraph(in_kronecker1)\n    weight2 = weight.subgraph(in_kronecker2)", new="    weight1 = weight.subgraph(in_kronecker2)\n    weight2 = weight.subgraph(in_kronecker1)", expect={"C02": ["R12b:cirkit.backend.torch.optimization.layers.apply_dense_tensordot"]}),
+    dict(id="r12b-tensordot-view-order", file=TOPT, old="        x = x.view(x.shape[0], x.shape[1], self._num_contract_units, self._num_batch_units)", new="        x = x.view(x.shape[0], x.shape[1], self._num_batch_units, self._num_contract_units).transpose(2, 3)", expect={"C02": ["R12b:cirkit.backend.torch.optimization.layers.apply_dense_tensordot"]}, allow_others=True),
 ]
